@@ -29,9 +29,12 @@ type pPolicy struct {
 }
 
 type pChan struct {
-	scid     uint64
-	wire     []byte // reconstructed channel_announcement
-	err      string
+	scid uint64
+	wire []byte // reconstructed channel_announcement
+	err  string
+	// noProof: the edge has no AuthProof (a channel of the node itself that
+	// has not been announced); wire then carries four all-zero signatures.
+	noProof  bool
 	node     [2][33]byte
 	capacity int64
 	outpoint wire.OutPoint
@@ -76,8 +79,10 @@ func (w *World) readProjection() *projection {
 			scid: info.ChannelID, capacity: int64(info.Capacity), outpoint: info.ChannelPoint,
 			node: [2][33]byte{info.NodeKey1Bytes, info.NodeKey2Bytes},
 		}
-		ann, err := info.ToChannelAnnouncement()
-		if err != nil {
+		if info.AuthProof == nil {
+			c.noProof = true
+			c.wire, c.err = prooflessWire(info)
+		} else if ann, err := info.ToChannelAnnouncement(); err != nil {
 			c.err = err.Error()
 		} else {
 			c.wire = encode(ann)
@@ -109,6 +114,36 @@ func (w *World) readProjection() *projection {
 	})
 	w.r.Must(err, "ForEachNode")
 	return pr
+}
+
+// prooflessWire is the channel_announcement of an edge without AuthProof: all
+// announced fields as stored, the four signature slots zero.
+func prooflessWire(info *models.ChannelEdgeInfo) ([]byte, string) {
+	if info.Version != lnwire.GossipVersion1 {
+		return nil, fmt.Sprintf("unsupported channel version: %d", info.Version)
+	}
+	btc1, err := info.BitcoinKey1Bytes.UnwrapOrErr(fmt.Errorf("bitcoin key 1 missing"))
+	if err != nil {
+		return nil, err.Error()
+	}
+	btc2, err := info.BitcoinKey2Bytes.UnwrapOrErr(fmt.Errorf("bitcoin key 2 missing"))
+	if err != nil {
+		return nil, err.Error()
+	}
+	feat := lnwire.NewRawFeatureVector()
+	if info.Features != nil && info.Features.RawFeatureVector != nil {
+		feat = info.Features.RawFeatureVector
+	}
+	return encode(&lnwire.ChannelAnnouncement1{
+		ShortChannelID:  lnwire.NewShortChanIDFromInt(info.ChannelID),
+		NodeID1:         info.NodeKey1Bytes,
+		NodeID2:         info.NodeKey2Bytes,
+		ChainHash:       info.ChainHash,
+		BitcoinKey1:     btc1,
+		BitcoinKey2:     btc2,
+		Features:        feat,
+		ExtraOpaqueData: info.ExtraOpaqueData,
+	}), ""
 }
 
 func (p *projection) scids() []uint64 {
@@ -157,6 +192,9 @@ func (p *projection) summary() string {
 	for _, s := range p.scids() {
 		c := p.chans[s]
 		fmt.Fprintf(&b, "[%s", scidStr(s))
+		if c.noProof {
+			b.WriteString(" unannounced")
+		}
 		for d := 0; d < 2; d++ {
 			if c.pol[d] == nil {
 				b.WriteString(" -")
@@ -273,6 +311,9 @@ func (p *projection) abstract() string {
 		}
 		if c.node[0] == c.node[1] {
 			b.WriteByte('!')
+		}
+		if c.noProof {
+			b.WriteByte('u')
 		}
 		b.WriteByte(']')
 	}
